@@ -18,7 +18,7 @@ LEVEL_TEXT = (
     "without reading an unassigned local, and that vectors are cut with the dof counts of the right spaces."
 )
 LEVEL_NOTE = "Receivers whose class cannot be determined statically are skipped (no type checker is available in this sandbox).  Not decided: numerical agreement of expression trees; value-level (as opposed to space-level) ill-typed combinations."
-EXPLANATION = "rules ATTR-RESOLVE, HOMOMORPHISM (incl. blocked combinators and blocked strong form), COMPAT-GUARD, DEF-ASSIGN, PACKING, BLOCK-MATVEC"
+EXPLANATION = "rules ATTR-RESOLVE, HOMOMORPHISM (incl. blocked combinators and blocked strong form), COMPAT-GUARD, DEF-ASSIGN, PACKING, BLOCK-MATVEC, GF-ALGEBRA"
 ASSUMPTIONS = ["scipy LinearOperator supplies shape/dtype/matvec plumbing for the discrete operator classes", "operands stored in _op/_op1/_op2 are members of the same class family (they are only ever constructed that way)"]
 
 BO = "bempp_cl/api/assembly/boundary_operator.py"
@@ -348,6 +348,88 @@ def block_matvec(ctx):
         r.check(ok, "BlockedDiscreteOperator." + meth, BL, "BlockedDiscreteOperator." + meth, fn.lineno, "blocked %s" % meth, why)
 
 
+def gf_algebra(ctx):
+    """GridFunction arithmetic: every result is built in self.space from the same linear combination of the
+    operands' coefficient (or projection) vectors."""
+    r = ctx.rule("GF-ALGEBRA", "grid function +, scalar *, unary -, -, / build GridFunction(self.space, <same linear combination of the coefficient or projection vectors>), projections only together with self.dual_space", 6)
+    m = ctx.repo.mod(GF)
+    c1, c2, p1, p2 = NC.op("c1"), NC.op("c2"), NC.op("p1"), NC.op("p2")
+
+    def results(fn, other):
+        """[(guards, kind, NC term, keyword dict)] for every GridFunction(...) returned by fn."""
+        d = roles.Defs(fn)
+        out = []
+        for s in roles.stores(fn.body, d, lv=False):
+            if s.op != "return":
+                continue
+            v = s.vnode
+            if isinstance(v, ast.Call) and unparse(v.func) == "GridFunction":
+                kws = {k.arg: k.value for k in v.keywords}
+                leaves = {"self.coefficients": c1, "self._projections": p1, "self.projections()": p1, "self._coefficients": c1}
+                if other:
+                    leaves.update({other + ".coefficients": c2, other + ".projections()": p2, other: NC.scalar("alpha")})
+                kind = "coefficients" if "coefficients" in kws else "projections" if "projections" in kws else None
+                try:
+                    term = NCEval(leaves).ev(kws[kind]) if kind else None
+                except AnalysisError:
+                    term = None
+                space = unparse(v.args[0]) if v.args else None
+                out.append((s.guards, kind, term, space, unparse(kws["dual_space"]) if "dual_space" in kws else None))
+            else:
+                out.append((s.guards, "expr", unparse(v) if v is not None else None, None, None))
+        return out
+
+    # __add__
+    fn = m.fn("GridFunction.__add__")
+    o = arg_names(fn)[1]
+    res = results(fn, o)
+    ok = len(res) == 2
+    whys = []
+    for g, kind, term, space, dual in res:
+        if kind == "projections":
+            cond = {t.replace(" ", "") for t, b in g if b}
+            need = {"(self.dual_spaceEq%s.dual_space)" % o, "(%s.dual_spaceEqself.dual_space)" % o}
+            good = term == p1 + p2 and space == "self.space" and dual == "self.dual_space" and bool(cond & need) and any("representation" in t for t in cond)
+        elif kind == "coefficients":
+            good = term == c1 + c2 and space == "self.space"
+        else:
+            good = False
+        ok = ok and good
+        whys.append("%s: %r in %s (dual %s) under %d guard(s): %s" % (kind, term, space, dual, len(g), good))
+    r.check(ok, "GridFunction.__add__", GF, fn.name, fn.lineno, "grid function sum", "; ".join(whys))
+    # __mul__
+    fn = m.fn("GridFunction.__mul__")
+    a = arg_names(fn)[1]
+    res = [x for x in results(fn, a) if x[1] in ("projections", "coefficients")]
+    al = NC.scalar("alpha")
+    ok = len(res) == 2 and {x[1] for x in res} == {"projections", "coefficients"}
+    for g, kind, term, space, dual in res:
+        rep_dual = any("representation" in t and "'dual'" in t and b for t, b in g)
+        if kind == "projections":
+            ok = ok and term == al * p1 and space == "self.space" and dual == "self.dual_space" and rep_dual
+        else:
+            ok = ok and term == al * c1 and space == "self.space" and not rep_dual
+    r.check(ok, "GridFunction.__mul__", GF, fn.name, fn.lineno, "grid function scaling", "scalar multiple is not alpha * (projections with self.dual_space | coefficients) in self.space: %s" % [(x[1], repr(x[2]), x[3], x[4]) for x in res])
+    # derived operations
+    def single_return(name):
+        f = m.fn("GridFunction." + name)
+        rs = [s for s in roles.stores(f.body, roles.Defs(f), lv=False) if s.op == "return" and not (isinstance(s.vnode, ast.Name) and s.vnode.id == "NotImplemented")]
+        return f, rs
+    f, rs = single_return("__neg__")
+    r.check(len(rs) == 1 and rs[0].value.replace(" ", "") in ("self.__mul__(USub(1.0))", "self.__mul__(USub(1))", "(USub(1.0)*self)", "(self*USub(1.0))"), "GridFunction.__neg__", GF, f.name, f.lineno, "grid function negation", "negation is `%s`" % (rs[0].value if rs else None))
+    f, rs = single_return("__sub__")
+    o = arg_names(f)[1]
+    r.check(len(rs) == 1 and rs[0].value.replace(" ", "") in ("(USub(%s)+self)" % o, "(self+USub(%s))" % o), "GridFunction.__sub__", GF, f.name, f.lineno, "grid function difference", "difference is `%s`" % (rs[0].value if rs else None))
+    f, rs = single_return("__rmul__")
+    a = arg_names(f)[1]
+    r.check(len(rs) == 1 and rs[0].value.replace(" ", "") in ("(%s*self)" % a, "(self*%s)" % a), "GridFunction.__rmul__", GF, f.name, f.lineno, "grid function right scaling", "alpha * f is `%s`" % (rs[0].value if rs else None))
+    f, rs = single_return("__div__")
+    a = arg_names(f)[1]
+    f2, rs2 = single_return("__truediv__")
+    okd = len(rs) == 1 and roles.canon(rs[0].vnode, roles.Defs(f), commutative_mult=False).replace(" ", "") in ("(self*(1.0/%s))" % a, "(self*(1/%s))" % a) and len(rs2) == 1 and rs2[0].value.replace(" ", "") == "self.__div__(%s)" % arg_names(f2)[1]
+    r.check(okd, "GridFunction.__truediv__", GF, f2.name, f2.lineno, "grid function division", "f / alpha is `%s` via `%s`" % (rs[0].value if rs else None, rs2[0].value if rs2 else None))
+
+
 def run(ctx):
     attr_rules(ctx)
     homomorphism(ctx)
@@ -355,3 +437,4 @@ def run(ctx):
     def_assign(ctx)
     packing(ctx)
     block_matvec(ctx)
+    gf_algebra(ctx)
